@@ -828,7 +828,7 @@ class Multi:
 
 
 C11.rule = ("cases drawn from VERIF_SEED: configuration A (no display; print/log/nested buffers/capture), B (display, other threads never write), "
-            "C (display, unrestricted), 2-4 threads x <=4/6 operations each, one seeded schedule per case (random walk / PCT / single pre-emption; "
+            "C (display, unrestricted; 20% of them restart storms, each also run under 6/16 race-directed plans), 2-4 threads x <=4/6 operations each, one seeded schedule per case (random walk / PCT / single pre-emption / race-directed: a check-then-act place from a dry run, the storing thread held at an operation boundary; "
             "bytecode-level pre-emption in 50% of the runs); non-trivial = at least one pre-emptive context switch happened; distinct = distinct "
             "(case, switch-signature)")
 C11.components_real = ["rich.console (thread-local buffers, _lock, _record_buffer_lock, capture, export_text)", "rich.live", "rich.live_render",
